@@ -167,3 +167,86 @@ package tracker
 //@   requires #state [C14] pr != nil && pr.State <= 2
 //@   ensures #snapshot-paused [C16] pr.State == StateSnapshot ==> result
 //@   ensures #flow pr.State != StateSnapshot ==> result == pr.MsgAppFlowPaused
+
+//@ -- ------------------------------------------------------------------------------------------
+//@ -- ProgressTracker
+
+//@ spec matchOf(p *ProgressTracker, id uint64) uint64 := has(p.Progress, id) ? p.Progress[id].Match : 0
+//@ spec geByMatch(p *ProgressTracker, c quorum.MajorityConfig, v int) int := cnt(c, id :: matchOf(p, id) >= v)
+//@ spec gtByMatch(p *ProgressTracker, c quorum.MajorityConfig, v int) int := cnt(c, id :: matchOf(p, id) > v)
+//@ -- r is the largest index acknowledged (Progress.Match, missing = 0) by a strict majority of voter set c
+//@ pred majCommittedByMatch(p *ProgressTracker, c quorum.MajorityConfig, r int) :=
+//@     (r == 0 || geByMatch(p, c, r) >= len(c) / 2 + 1) && gtByMatch(p, c, r) < len(c) / 2 + 1
+//@ pred jointCommittedByMatch(p *ProgressTracker, r int) :=
+//@     (len(p.Voters[0]) == 0 && len(p.Voters[1]) == 0) ? r == 18446744073709551615
+//@   : ((len(p.Voters[0]) > 0 ==> r == 0 || geByMatch(p, p.Voters[0], r) >= len(p.Voters[0]) / 2 + 1)
+//@      && (len(p.Voters[1]) > 0 ==> r == 0 || geByMatch(p, p.Voters[1], r) >= len(p.Voters[1]) / 2 + 1)
+//@      && ((len(p.Voters[0]) > 0 && gtByMatch(p, p.Voters[0], r) < len(p.Voters[0]) / 2 + 1) || (len(p.Voters[1]) > 0 && gtByMatch(p, p.Voters[1], r) < len(p.Voters[1]) / 2 + 1)))
+
+//@ pred progress_nonnil(p *ProgressTracker) := forall id uint64 :: has(p.Progress, id) ==> p.Progress[id] != nil
+
+//@ func tracker.matchAckIndexer.AckedIndex [C12 C06]
+//@   pure
+//@   implements quorum.AckedIndexer.AckedIndex
+//@   requires has(l, id) ==> l[id] != nil
+//@   ensures #match result1 == has(l, id) && result0 == (has(l, id) ? l[id].Match : 0)
+
+//@ func tracker.ProgressTracker.IsSingleton [C11]
+//@   pure
+//@   requires p != nil
+//@   ensures result <==> (len(p.Voters[0]) == 1 && len(p.Voters[1]) == 0)
+
+//@ func tracker.ProgressTracker.ResetVotes [C02]
+//@   requires p != nil
+//@   frame tracker.ProgressTracker: p
+//@   ensures #empty [C02] fresh(p.Votes) && len(p.Votes) == 0 && (forall id uint64 :: !has(p.Votes, id))
+//@   ensures #rest p.Progress == old(p.Progress) && p.Voters[0] == old(p.Voters[0]) && p.Voters[1] == old(p.Voters[1])
+
+//@ func tracker.ProgressTracker.RecordVote [C02]
+//@   requires p != nil && p.Votes != nil
+//@   ensures #first-wins [C02] (old(has(p.Votes, id)) ==> p.Votes[id] == old(p.Votes[id])) && (!old(has(p.Votes, id)) ==> p.Votes[id] == v) && has(p.Votes, id)
+//@   ensures #others-kept [C02] forall k uint64 :: k != id ==> has(p.Votes, k) == old(has(p.Votes, k)) && p.Votes[k] == old(p.Votes[k])
+//@   ensures #rest p.Votes == old(p.Votes) && p.Progress == old(p.Progress) && p.Voters[0] == old(p.Voters[0]) && p.Voters[1] == old(p.Voters[1])
+
+//@ func tracker.ProgressTracker.Committed [C06 C12]
+//@   requires p != nil && progress_nonnil(p)
+//@   after quorum.JointConfig.CommittedIndex assume cnt_mono(p.Voters[0], id :: ack(asiface(p.Progress, "tracker.matchAckIndexer"), id) >= result, id :: matchOf(p, id) >= result)
+//@        && cnt_mono(p.Voters[1], id :: ack(asiface(p.Progress, "tracker.matchAckIndexer"), id) >= result, id :: matchOf(p, id) >= result)
+//@        && cnt_mono(p.Voters[0], id :: matchOf(p, id) > result, id :: ack(asiface(p.Progress, "tracker.matchAckIndexer"), id) > result)
+//@        && cnt_mono(p.Voters[1], id :: matchOf(p, id) > result, id :: ack(asiface(p.Progress, "tracker.matchAckIndexer"), id) > result)
+//@   ensures #quorum-index [C06 C12] jointCommittedByMatch(p, result)
+
+//@ func tracker.ProgressTracker.TallyVotes [C02 C12 C19]
+//@   pure
+//@   requires p != nil && progress_nonnil(p)
+//@   ensures #result [C02 C12] result2 == jointVoteSpec(p.Voters, p.Votes)
+//@   ensures #counts-order-free [C19] granted == cnt(p.Progress, id :: !p.Progress[id].IsLearner && has(p.Votes, id) && p.Votes[id])
+//@        && rejected == cnt(p.Progress, id :: !p.Progress[id].IsLearner && has(p.Votes, id) && !p.Votes[id])
+//@   loop 1 invariant #counts granted == cntsofar(id :: !p.Progress[id].IsLearner && has(p.Votes, id) && p.Votes[id])
+//@        && rejected == cntsofar(id :: !p.Progress[id].IsLearner && has(p.Votes, id) && !p.Votes[id])
+//@   loop 1 invariant #range 0 <= granted && 0 <= rejected && granted + rejected <= iter
+
+//@ func tracker.MakeProgressTracker [C13]
+//@   ensures #empty len(result.Voters[0]) == 0 && result.Voters[0] != nil && result.Voters[1] == nil && result.Learners == nil && result.LearnersNext == nil && !result.AutoLeave
+//@        && len(result.Progress) == 0 && result.Progress != nil && len(result.Votes) == 0 && result.Votes != nil
+//@        && result.MaxInflight == maxInflight && result.MaxInflightBytes == maxBytes
+
+//@ -- Visit calls f(id, p.Progress[id]) for every key of p.Progress in ascending id order (see DESIGN §2.2 "iterates").
+//@ func tracker.ProgressTracker.Visit [C19]
+//@   trusted
+//@   iterates p.Progress
+//@   requires p != nil
+
+//@ spec activeCnt(p *ProgressTracker, c quorum.MajorityConfig) int := cnt(c, id :: has(p.Progress, id) && !p.Progress[id].IsLearner && p.Progress[id].RecentActive)
+//@ pred majActive(p *ProgressTracker, c quorum.MajorityConfig) := len(c) == 0 || activeCnt(p, c) >= len(c) / 2 + 1
+
+//@ func tracker.ProgressTracker.QuorumActive [C17 C12]
+//@   requires p != nil && progress_nonnil(p)
+//@   visit 1 invariant #domain forall id uint64 :: has(votes, id) <==> (seen(id) && !p.Progress[id].IsLearner)
+//@   visit 1 invariant #values forall id uint64 :: has(votes, id) ==> votes[id] == p.Progress[id].RecentActive
+//@   visit 1 invariant #votes-map votes != nil
+//@   after quorum.JointConfig.VoteResult assume cnt_mono(p.Voters[0], id :: has(votes, id) && votes[id], id :: has(p.Progress, id) && !p.Progress[id].IsLearner && p.Progress[id].RecentActive)
+//@        && cnt_mono(p.Voters[0], id :: has(p.Progress, id) && !p.Progress[id].IsLearner && p.Progress[id].RecentActive, id :: has(votes, id) && votes[id])
+//@        && cnt_mono(p.Voters[1], id :: has(votes, id) && votes[id], id :: has(p.Progress, id) && !p.Progress[id].IsLearner && p.Progress[id].RecentActive)
+//@        && cnt_mono(p.Voters[1], id :: has(p.Progress, id) && !p.Progress[id].IsLearner && p.Progress[id].RecentActive, id :: has(votes, id) && votes[id])
+//@   ensures #quorum-of-recent-active [C17 C12] result <==> (majActive(p, p.Voters[0]) && majActive(p, p.Voters[1]))
